@@ -28,6 +28,7 @@ import (
 	"strings"
 	"text/template"
 	"time"
+	"unicode/utf8"
 
 	"github.com/emersion/go-message/textproto"
 	"github.com/emersion/go-smtp"
@@ -335,10 +336,45 @@ func writeHumanReadablePart(w *textproto.MultipartWriter, mtaInfo ReportingMTAIn
 	}
 
 	for _, rcpt := range rcptsInfo {
-		if _, err := fmt.Fprintf(humanWriter, "Delivery to %s failed with error: %v\n", rcpt.FinalRecipient, rcpt.DiagnosticCode); err != nil {
+		line := fmt.Sprintf("Delivery to %s failed with error: %v", rcpt.FinalRecipient, rcpt.DiagnosticCode)
+		if _, err := fmt.Fprintf(humanWriter, "%s\n", wrapText(line, 78)); err != nil {
 			return err
 		}
 	}
 
 	return nil
+}
+
+// wrapText breaks the text into lines of at most width octets where it has
+// spaces, a longer word is cut at 900 octets: the text of an error is the
+// reply of another server in most cases, up to 2000 octets long, while a line
+// of a message may have 998 at most (RFC 5322 Section 2.1.1).
+func wrapText(text string, width int) string {
+	const hardLimit = 900
+
+	var res strings.Builder
+	lineLen := 0
+	for i, word := range strings.Split(text, " ") {
+		if i != 0 {
+			if lineLen+1+len(word) > width {
+				res.WriteString("\n")
+				lineLen = 0
+			} else {
+				res.WriteString(" ")
+				lineLen++
+			}
+		}
+		for len(word) > hardLimit {
+			cut := hardLimit
+			for cut > 0 && !utf8.RuneStart(word[cut]) {
+				cut--
+			}
+			res.WriteString(word[:cut])
+			res.WriteString("\n")
+			word = word[cut:]
+		}
+		res.WriteString(word)
+		lineLen += len(word)
+	}
+	return res.String()
 }
